@@ -3,6 +3,13 @@ import importlib
 import os
 import sys
 import traceback
+import faulthandler
+import signal
+
+try:
+  faulthandler.register(signal.SIGUSR1, all_threads=True)
+except Exception:
+  pass
 
 
 def main(argv):
